@@ -200,7 +200,7 @@ def signed_enum_bitfield(model):
                     return True
             elif f.bits is not None:
                 t = G.resolve(f.ty)
-                if isinstance(t, G.EnumRef) and t.enum.signed and f.bits < 32:
+                if isinstance(t, G.EnumRef) and t.enum.signed and f.bits < 64:      # (enums with 64-bit underlying types have fields of 33..63 bits too)
                     return True
         return False
     return any(walk(r) for r in model.records)
